@@ -20,10 +20,15 @@ TRUSTED = [
     'not modelled, exercised by the end-to-end search',
     'PEP 249 binding rules and the %-formatting step of format/pyformat drivers (Model/C06Params.v, Model/C06Lex.v: documentation models validated in C06); '
     'the driver shim of C06 that runs format / pyformat / numeric statements on SQLite',
+    'regex semantics model Model/C30Regex.v (backtracking matcher with Python\'s priorities) and translator c30regex.py (CPython\'s re._parser parse trees -> Gen/C30Regex.v): '
+    'trusted, and compared with CPython\'s compiled patterns (match / search, lastindex, end positions) on every run',
+    'translator c30rawtype.py (fields compared / hashed by RawSQLType.__eq__ / __hash__) and the statement that the cached translator carries one converter per $parameter type; '
+    'exercised end to end by re-running one query with raw_sql $parameters of changing Python types against cold-cache runs',
 ]
 ASSUMPTIONS = [
-    'SyntaxError raised by compile() for an ill-formed expression is outside the model (checked by correspondence only: the real function raises exactly when '
-    'one of the model\'s expression texts does not compile)',
+    'SyntaxError raised by compile() for an ill-formed expression is outside the Coq model; the Python mirror applies the compile checks in the code\'s order '
+    '(an earlier SyntaxError pre-empts a later scanner error) and must agree with the real function exactly, the Coq model must agree with the mirror without them',
+    'the regex theorems assume that \\s contains none of ; . ( [ and no identifier start (space_class_ok: proved for the ASCII classes and the per-case tables, checked against CPython)',
     'the cache model is per (statement text, paramstyle) request history of one process; concurrent access is C22',
     'PostgreSQL / MySQL drivers are not installed: the raw_sql()-fragment finding is judged under the documented %-formatting step',
 ]
